@@ -1,7 +1,364 @@
-//! C14 — harness not built yet.
+//! C14 — path-rewrite plugins only merge adjacent tokens and preserve the text.
+//!
+//! The same text is analysed twice with the same dictionary bytes: without path-rewrite plugins (the input path of the
+//! plugins) and with a chain of JoinNumericPlugin / JoinKatakanaOovPlugin under varying settings.  The Coq model
+//! (`Model.Rewrite.run_plugins`) is run on the first result and must produce the second; the grouping property is
+//! evaluated on the implementation's output both in Coq (`grouping_ok`) and by an independent Rust oracle.
+use crate::c15::{compile_system, gen_malformed, gen_wellformed, load_dict, resource_dir, EXTRA_ROWS, FULLWIDTH_DIGITS};
 use crate::common::*;
+use serde_json::{json, Value};
+use sudachi::analysis::stateless_tokenizer::StatelessTokenizer;
+use sudachi::analysis::{Mode, Tokenize};
+use sudachi::dic::dictionary::JapaneseDictionary;
+use sudachi::dic::grammar::Grammar;
+use sudachi::input_text::{InputBuffer, InputTextIndex};
+use sudachi::prelude::*;
 
-pub fn run(_args: &Args) {
-    eprintln!("no harness for C14 yet");
-    std::process::exit(2);
+#[derive(Clone, Debug, PartialEq)]
+struct Node {
+    b: usize,  // bytes in the original text
+    e: usize,
+    bc: usize, // code points
+    ec: usize,
+    text: String, // slice of the original text
+    surf: String, // dictionary-side surface
+    norm: String,
+    dform: String,
+    rform: String,
+    pos: u16,
+    oov: bool,
+    cats: u32,
+    cat0: u32,
+}
+
+fn analyse(dict: &JapaneseDictionary, text: &str) -> Result<Vec<Node>, String> {
+    let r = catch(|| {
+        let t = StatelessTokenizer::new(dict);
+        let ms = t.tokenize(text, Mode::C, false).map_err(|e| format!("{:?}", e))?;
+        let mut v = vec![];
+        for m in ms.iter() {
+            v.push(Node {
+                b: m.begin(),
+                e: m.end(),
+                bc: m.begin_c(),
+                ec: m.end_c(),
+                text: m.surface().to_string(),
+                surf: m.get_word_info().surface().to_string(),
+                // raw stored strings (empty = same as surface): this is what concat_nodes concatenates
+                norm: raw(&m).normalized_form,
+                dform: raw(&m).dictionary_form,
+                rform: raw(&m).reading_form,
+                pos: m.part_of_speech_id(),
+                oov: m.is_oov(),
+                cats: 0,
+                cat0: 0,
+            });
+        }
+        Ok::<_, String>(v)
+    });
+    match r {
+        Ok(Ok(v)) => Ok(v),
+        Ok(Err(e)) => Err(format!("Err({})", e)),
+        Err(p) => Err(format!("Panic({})", p)),
+    }
+}
+
+fn raw<T: sudachi::analysis::stateless_tokenizer::DictionaryAccess>(m: &sudachi::analysis::morpheme::Morpheme<T>) -> sudachi::dic::lexicon::word_infos::WordInfoData {
+    m.get_word_info().clone().into()
+}
+
+/// character classes as the plugins see them (InputBuffer::cat_of_range / cat_at_char on the built buffer)
+fn fill_cats(grammar: &Grammar, text: &str, nodes: &mut [Node]) {
+    let mut buf = InputBuffer::from(text);
+    buf.build(grammar).expect("buffer builds");
+    for n in nodes.iter_mut() {
+        n.cats = buf.cat_of_range(n.bc..n.ec).bits();
+        n.cat0 = buf.cat_at_char(n.bc).bits();
+    }
+}
+
+#[derive(Clone, Debug)]
+enum Plug {
+    Numeric { normalize: bool },
+    Katakana { min_length: usize, pos: usize },
+}
+
+const OOV_POS: [[&str; 6]; 3] = [
+    ["名詞", "普通名詞", "一般", "*", "*", "*"],
+    ["名詞", "固有名詞", "地名", "一般", "*", "*"],
+    ["補助記号", "一般", "*", "*", "*", "*"],
+];
+const NUM_POS: [&str; 6] = ["名詞", "数詞", "*", "*", "*", "*"];
+
+fn plug_json(p: &Plug) -> Value {
+    match p {
+        Plug::Numeric { normalize } => json!({"class": "com.worksap.nlp.sudachi.JoinNumericPlugin", "enableNormalize": normalize}),
+        Plug::Katakana { min_length, pos } => json!({"class": "com.worksap.nlp.sudachi.JoinKatakanaOovPlugin", "oovPOS": OOV_POS[*pos], "minLength": min_length}),
+    }
+}
+
+struct Variant {
+    name: String,
+    plugs: Vec<Plug>,
+    base: JapaneseDictionary,
+    with: JapaneseDictionary,
+    num_pos: u16,
+    oov_pos: Vec<u16>,
+    input_plugin: bool,
+}
+
+fn pos_id(d: &JapaneseDictionary, p: &[&str]) -> u16 {
+    d.grammar().get_part_of_speech_id(p).expect("part of speech exists in the dictionary")
+}
+
+fn coq_node(n: &Node) -> String {
+    format!("mkN {} {} {} {} {} {} {} {} {} {}", n.bc, n.ec, ctext(&n.surf), ctext(&n.norm), ctext(&n.dform), ctext(&n.rform), cn(n.pos), cbool(n.oov), cn(n.cats), cn(n.cat0))
+}
+
+fn coq_plug(v: &Variant, p: &Plug) -> String {
+    match p {
+        Plug::Numeric { normalize } => format!("PNumeric {} {}", cbool(*normalize), cn(v.num_pos)),
+        Plug::Katakana { min_length, pos } => format!("PKatakana {} {}", min_length, cn(v.oov_pos[*pos])),
+    }
+}
+
+/// independent oracle: `out` arises from `inp` by merging consecutive groups; returns the first discrepancy
+fn grouping_oracle(v: &Variant, text: &str, inp: &[Node], out: &[Node]) -> Option<String> {
+    let joined: String = out.iter().map(|n| n.text.as_str()).collect();
+    if joined != text {
+        return Some(format!("surfaces with plugins concatenate to {:?}, not to the input", joined));
+    }
+    let renorm = v.plugs.iter().any(|p| matches!(p, Plug::Numeric { normalize: true }));
+    let mut allowed: Vec<u16> = vec![];
+    for p in &v.plugs {
+        match p {
+            Plug::Numeric { .. } => allowed.push(v.num_pos),
+            Plug::Katakana { pos, .. } => allowed.push(v.oov_pos[*pos]),
+        }
+    }
+    let mut k = 0;
+    for m in out {
+        let start = k;
+        if k >= inp.len() || inp[k].b != m.b {
+            return Some(format!("token {:?} at {}..{} does not start at a boundary of the analysis without plugins", m.text, m.b, m.e));
+        }
+        while k < inp.len() && inp[k].e < m.e {
+            k += 1;
+        }
+        if k >= inp.len() || inp[k].e != m.e {
+            return Some(format!("token {:?} at {}..{} does not end at a boundary of the analysis without plugins", m.text, m.b, m.e));
+        }
+        k += 1;
+        let g = &inp[start..k];
+        if g.len() == 1 {
+            let n = &g[0];
+            let same = n.surf == m.surf && n.norm == m.norm && n.dform == m.dform && n.rform == m.rform && n.pos == m.pos && n.oov == m.oov && n.bc == m.bc && n.ec == m.ec;
+            let renormed = renorm && n.surf == m.surf && n.pos == m.pos && n.pos == v.num_pos;
+            if !same && !renormed {
+                return Some(format!("token {:?} is not part of a merge but differs from the analysis without plugins: {:?} vs {:?}", m.text, n, m));
+            }
+        } else {
+            let s: String = g.iter().map(|n| n.surf.as_str()).collect();
+            if s != m.surf {
+                return Some(format!("merged token {:?}: dictionary-side surface {:?} is not the concatenation {:?}", m.text, m.surf, s));
+            }
+            if m.bc != g[0].bc || m.ec != g[g.len() - 1].ec {
+                return Some(format!("merged token {:?}: code-point range {}..{} is not the union of the merged ranges", m.text, m.bc, m.ec));
+            }
+            if !allowed.contains(&m.pos) {
+                return Some(format!("merged token {:?}: part of speech id {} is not one the plugins prescribe {:?}", m.text, m.pos, allowed));
+            }
+        }
+    }
+    if k != inp.len() {
+        return Some("tokens of the analysis without plugins were dropped at the end".to_string());
+    }
+    None
+}
+
+fn run_case(sink: &mut Sink, v: &Variant, text: &str, tag: &str, verbose: bool) {
+    let d = json!({"kind": "rewrite", "variant": v.name, "text": text, "tag": tag});
+    let inp = analyse(&v.base, text);
+    let out = analyse(&v.with, text);
+    let (mut inp, out) = match (inp, out) {
+        (Ok(a), Ok(b)) => (a, b),
+        (Err(a), Err(_)) => {
+            // the analysis itself fails irrespective of the plugins: not a C14 matter
+            sink.tag(&format!("analysis_fails_without_plugins:{}", &a[..a.len().min(12)]));
+            return;
+        }
+        (Ok(_), Err(e)) => {
+            let id = sink.case_rust_only(d, true);
+            sink.fail(id, &format!("{:?} analyses without path-rewrite plugins but fails with them: {}", text, e), "");
+            return;
+        }
+        (Err(e), Ok(_)) => {
+            let id = sink.case_rust_only(d, true);
+            sink.fail(id, &format!("{:?} fails without path-rewrite plugins ({}) but analyses with them", text, e), "");
+            return;
+        }
+    };
+    if verbose {
+        println!("without plugins:");
+        for n in &inp {
+            println!("  {:?}", n);
+        }
+        println!("with plugins {:?}:", v.plugs);
+        for n in &out {
+            println!("  {:?}", n);
+        }
+    }
+    sink.tag(&format!("variant:{}", v.name));
+    sink.tag(tag);
+    let merged = out.len() < inp.len();
+    sink.tag(if merged { "some_merge" } else { "no_merge" });
+    let id = if v.input_plugin {
+        sink.case_rust_only(d, merged)
+    } else {
+        fill_cats(v.base.grammar(), text, &mut inp);
+        let term = format!(
+            "check_rewrite {} {} {}",
+            clist(v.plugs.iter().map(|p| coq_plug(v, p))),
+            clist(inp.iter().map(coq_node)),
+            clist(out.iter().map(coq_node))
+        );
+        sink.case(term, d, merged)
+    };
+    if let Some(why) = grouping_oracle(v, text, &inp, &out) {
+        sink.fail(id, &format!("{:?} [{}]: {}", text, v.name, why), "");
+    }
+}
+
+fn variants(work: &std::path::Path) -> Vec<Variant> {
+    let dic = compile_system(EXTRA_ROWS);
+    let chains: Vec<(&str, Vec<Plug>)> = vec![
+        ("num+kat3", vec![Plug::Numeric { normalize: true }, Plug::Katakana { min_length: 3, pos: 0 }]),
+        ("numraw+kat1", vec![Plug::Numeric { normalize: false }, Plug::Katakana { min_length: 1, pos: 0 }]),
+        ("kat2", vec![Plug::Katakana { min_length: 2, pos: 1 }]),
+        ("num", vec![Plug::Numeric { normalize: true }]),
+        ("kat5+num", vec![Plug::Katakana { min_length: 5, pos: 0 }, Plug::Numeric { normalize: true }]),
+        ("num+kat0", vec![Plug::Numeric { normalize: true }, Plug::Katakana { min_length: 0, pos: 2 }]),
+        ("numraw", vec![Plug::Numeric { normalize: false }]),
+        ("kat9", vec![Plug::Katakana { min_length: 9, pos: 0 }]),
+    ];
+    let mut vs = vec![];
+    for (cd_name, cd) in [("res", "resources/char.def"), ("test", "sudachi/tests/resources/char.def")] {
+        let res = resource_dir(work, &format!("res_c14_{}", cd_name), cd);
+        for (name, plugs) in &chains {
+            for input_plugin in [false, true] {
+                if input_plugin && !(*name == "num+kat3" || *name == "numraw+kat1") {
+                    continue;
+                }
+                let pr = Value::Array(plugs.iter().map(plug_json).collect());
+                let (base, with) = if input_plugin {
+                    (load_dict(&dic, &res, json!([])), load_dict(&dic, &res, pr))
+                } else {
+                    (load_dict_plain(&dic, &res, json!([])), load_dict_plain(&dic, &res, pr))
+                };
+                let num_pos = pos_id(&base, &NUM_POS);
+                let oov_pos = OOV_POS.iter().map(|p| pos_id(&base, p)).collect();
+                vs.push(Variant { name: format!("{}/{}{}", cd_name, name, if input_plugin { "/nfkc" } else { "" }), plugs: plugs.clone(), base, with, num_pos, oov_pos, input_plugin });
+            }
+        }
+    }
+    vs
+}
+
+/// as c15::load_dict but without the input-text plugin (the modified text is the original text)
+fn load_dict_plain(dic: &[u8], res: &std::path::Path, path_rewrite: Value) -> JapaneseDictionary {
+    use sudachi::config::ConfigBuilder;
+    use sudachi::dic::storage::{Storage, SudachiDicData};
+    let cfg = json!({
+        "path": res.to_string_lossy(),
+        "characterDefinitionFile": "char.def",
+        "inputTextPlugin": [],
+        "oovProviderPlugin": [{"class": "com.worksap.nlp.sudachi.SimpleOovPlugin",
+                               "oovPOS": ["名詞", "普通名詞", "一般", "*", "*", "*"], "leftId": 8, "rightId": 8, "cost": 6000}],
+        "pathRewritePlugin": path_rewrite,
+    });
+    let cfg = ConfigBuilder::from_bytes(cfg.to_string().as_bytes()).unwrap().build();
+    JapaneseDictionary::from_cfg_storage(&cfg, SudachiDicData::new(Storage::Owned(dic.to_vec()))).expect("dictionary loads")
+}
+
+const PIECES_KATA: [&str; 16] = ["アイ", "アイウ", "コーヒー", "カップ", "アイアイウ", "ラ", "ラーメン", "ァ", "ァイ", "ー", "メ", "ヴ", "ン", "テスト", "ア", "イウ"];
+const PIECES_NUM: [&str; 22] = ["0", "1", "2", "5", "9", "〇", "一", "二", "三", "九", "十", "百", "千", "万", "億", "兆", ",", ".", "12", "1,000", "六三四", "3.14"];
+const PIECES_OTHER: [&str; 16] = ["に", "た", "京都", "東京都", "行っ", "a", "xyz", " ", "円", "。", "特a", "-", "東", "いく", "な。な", "X"];
+
+fn gen_text(rng: &mut Rng, nfkc: bool) -> (String, &'static str) {
+    let shape = rng.below(6);
+    let n = 1 + rng.below(8) as usize;
+    let mut s = String::new();
+    for k in 0..n {
+        let class = match shape {
+            0 => 0,                        // katakana runs
+            1 => 1,                        // numerals
+            2 => if k % 2 == 0 { 0 } else { 1 }, // numerals adjacent to katakana
+            _ => rng.below(3),
+        };
+        match class {
+            0 => s.push_str(*rng.pick(&PIECES_KATA[..])),
+            1 => match rng.below(6) {
+                0 => s.push_str(&gen_wellformed(rng).text.chars().take(12).collect::<String>()),
+                1 => s.push_str(&gen_malformed(rng).text.chars().take(12).collect::<String>()),
+                _ => s.push_str(*rng.pick(&PIECES_NUM[..])),
+            },
+            _ => s.push_str(*rng.pick(&PIECES_OTHER[..])),
+        }
+    }
+    if nfkc {
+        // characters that the input-text plugin rewrites: full-width digits, half-width katakana
+        s = s.chars().map(|c| if c.is_ascii_digit() && rng.chance(1, 2) { FULLWIDTH_DIGITS[c.to_digit(10).unwrap() as usize] } else { c }).collect();
+        if rng.chance(1, 3) {
+            s.push_str(*rng.pick(&["ｱｲｳ", "ﾗｰﾒﾝ", "ﾃｽﾄ"][..]));
+        }
+    }
+    let tag = match shape {
+        0 => "text:katakana_runs",
+        1 => "text:numerals",
+        2 => "text:numerals_next_to_katakana",
+        _ => "text:mixed",
+    };
+    (s, tag)
+}
+
+const DIRECTED: [&str; 24] = [
+    "123円20銭", "080-121", "一二三万二千円", "二百百", "1,000,000円", ",123,", "1.", ".5.", "1,2,3", "アイアイウ", "アイウアイ", "ァイアイ", "ラーメンアイウ",
+    "コーヒーカップ", "アイ1アイ", "1アイウ2", "カップ3.50ー", "六三四アイ", "ァァァ", "1,", "に,1", "1.2.3", "京都に123,456.70円アイウラ", "",
+];
+
+pub fn run(args: &Args) {
+    let mut sink = Sink::new("C14", &args.out, &["Model.Rewrite"], args.seed, &args.tier);
+    sink.shard_size = 60;
+    sink.rule("the same text analysed with one dictionary (tests/resources/lex.csv + numeral units, separators, katakana words; resources/char.def or tests/resources/char.def) without path-rewrite plugins and with a plugin chain (JoinNumeric enableNormalize true/false, JoinKatakanaOov minLength 0/1/2/3/5/9, three OOV parts of speech, both orders, each alone); texts are concatenations of katakana dictionary words / katakana OOV pieces (incl. NOOOVBOW ァ) / digits, kanji digits, units, separators, well-formed and malformed numerals / other words, directed sequences first (separators at text edges, numerals next to katakana runs); Coq model of both loops run on the plugin-free path must equal the result with plugins and grouping_ok must hold on it; a Rust oracle re-checks boundary subset, union range, concatenated surface, prescribed part of speech, unchanged rest; non-trivial = at least one merge; extra stream with the NFKC input-text plugin (oracle only)");
+    let vs = variants(&args.work);
+    if let Some(p) = &args.replay {
+        let r: Value = serde_json::from_str(&std::fs::read_to_string(p).unwrap()).unwrap();
+        let c = &r["case"];
+        let name = c["variant"].as_str().unwrap();
+        let v = vs.iter().find(|v| v.name == name).expect("variant of the replay exists");
+        run_case(&mut sink, v, c["text"].as_str().unwrap(), "replay", true);
+        sink.finish();
+        return;
+    }
+    let mut rng = Rng::new(args.seed);
+    for t in DIRECTED.iter() {
+        for v in vs.iter().filter(|v| !v.input_plugin) {
+            if v.name.ends_with("num+kat3") || v.name.ends_with("numraw+kat1") || v.name.ends_with("kat2") {
+                run_case(&mut sink, v, t, "text:directed", false);
+            }
+        }
+    }
+    let plain: Vec<&Variant> = vs.iter().filter(|v| !v.input_plugin).collect();
+    let nfkc: Vec<&Variant> = vs.iter().filter(|v| v.input_plugin).collect();
+    for _ in 0..args.n(900, 20000) {
+        let (t, tag) = gen_text(&mut rng, false);
+        let v = *rng.pick(&plain);
+        run_case(&mut sink, v, &t, tag, false);
+    }
+    for _ in 0..args.n(250, 5000) {
+        let (t, tag) = gen_text(&mut rng, true);
+        let v = *rng.pick(&nfkc);
+        run_case(&mut sink, v, &t, tag, false);
+    }
+    sink.finish();
 }
